@@ -103,7 +103,8 @@ func ParseGPTHeader(r ReaderAt, lss int, lba uint64, diskSize int64) (*GPTHeader
 		return h, nil
 	}
 	total := uint64(h.NumEntries) * uint64(h.EntrySize)
-	if h.EntrySize < 128 || h.EntrySize%8 != 0 || h.NumEntries == 0 || total > 1<<24 {
+	// (a header that declares zero entries has an empty array, whose CRC is that of no bytes: not invalid in itself)
+	if h.EntrySize < 128 || h.EntrySize%8 != 0 || total > 1<<24 {
 		return h, nil
 	}
 	off := int64(h.ArrayLBA) * int64(lss)
